@@ -19,7 +19,7 @@ var c19FaultKinds = []string{
 
 // c19Patch builds a valid multi-change patch and injects one fault; it returns the text and
 // the 1-based line and byte column of the offending token (cols lists acceptable columns).
-func c19Patch(r *rand.Rand, kind string) (text string, line int, cols []int, changeIdx int, shape string) {
+func c19Patch(r *rand.Rand, kind string) (text string, line int, cols []int, changeIdx int, shape string, also []string) {
 	indented := false
 	defer func() {
 		if indented {
@@ -30,6 +30,15 @@ func c19Patch(r *rand.Rand, kind string) (text string, line int, cols []int, cha
 	faultAt := r.Intn(nChanges)
 	if kind == "header-plain-text-first-line" {
 		faultAt = 0
+	}
+	// faults found when the patch is compiled are all reported: every other such patch carries a second one in
+	// another change, and both positions must be right
+	compAt := -1
+	if (kind == "meta-unknown-type" || strings.HasPrefix(kind, "meta-duplicate")) && nChanges > 1 && r.Intn(2) == 0 {
+		compAt = r.Intn(nChanges - 1)
+		if compAt >= faultAt {
+			compAt++
+		}
 	}
 	var lines []string
 	noise := func(max int) int {
@@ -77,8 +86,14 @@ func c19Patch(r *rand.Rand, kind string) (text string, line int, cols []int, cha
 				header = "@ 1bad @"
 				line, cols = len(lines)+1, []int{3}
 			case "name-bad-inner-char":
-				header = "@   go-od @"
-				line, cols = len(lines)+1, []int{7}
+				// the padding around a name is any white space, each byte of it counts
+				pads := []struct {
+					h string
+					c int
+				}{{"@   go-od @", 7}, {"@\tgo-od\t@", 5}, {"@ \tgo-od @", 6}, {"@\u00a0go-od\u00a0@", 6}, {"@go-od\t @", 4}}
+				pd := pads[r.Intn(len(pads))]
+				header = pd.h
+				line, cols = len(lines)+1, []int{pd.c}
 			case "name-multibyte-bad":
 				header = "@ né€x @"
 				// n(3) é(4,5) €(6..8): column of the euro sign
@@ -179,6 +194,19 @@ func c19Patch(r *rand.Rand, kind string) (text string, line int, cols []int, cha
 				}
 			}
 		} else {
+			if c == compAt {
+				if r.Intn(2) == 0 {
+					metaLines = append(metaLines, "var cq, é9 strng2")
+					also = append(also, fmt.Sprintf("%d:%d", len(lines)+len(metaLines), len("var cq, é9 ")+1))
+				} else {
+					metaLines = append(metaLines, "var cdup identifier; var é8, cdup expression")
+					also = append(also, fmt.Sprintf("%d:%d", len(lines)+len(metaLines), len("var cdup identifier; var é8, ")+1))
+				}
+				for _, ml := range metaLines {
+					lines = append(lines, ml)
+				}
+				metaLines = nil
+			}
 			for _, ml := range metaLines {
 				if r.Intn(4) == 0 {
 					lines = append(lines, "# in meta")
@@ -194,8 +222,11 @@ func c19Patch(r *rand.Rand, kind string) (text string, line int, cols []int, cha
 		lines = append(lines, fmt.Sprintf("-foo%d(%s)", c, arg), fmt.Sprintf("+bar%d(%s)", c, arg))
 	}
 	shape = fmt.Sprintf("changes=%d at=%d pre=%d", nChanges, faultAt, pre)
+	if compAt >= 0 {
+		shape += fmt.Sprintf(" second-fault-at=%d", compAt)
+	}
 	text = strings.Join(lines, "\n") + "\n"
-	return text, line, cols, faultAt, shape
+	return text, line, cols, faultAt, shape, also
 }
 
 func init() {
@@ -204,7 +235,7 @@ func init() {
 		Level: "exploration",
 		Rule: "cases: valid patches of 1-5 changes with 0-6 '#'/blank lines before and inside sections, tabs and multi-byte characters before the fault, into which one fault of 16 kinds is injected (bad change name: first / inner / multi-byte / space; " +
 			"text where a header is expected: '@foo', '@@ x', plain text; unknown metavariable type; duplicate metavariable on the same line / a later line / a later group; missing 'var'; missing type; missing name after a comma; non-identifier token; trailing junk) " +
-			"at every change index; delivered by -p (two path spellings), stdin and patch.Parse. Oracle: the injector knows the byte offset of the token it corrupted; a diagnostic must contain '<patch name>:<line>:<byte column>', exit != 0, at least one diagnostic names the patch, no target file changes. " +
+			"at every change index, white space of several kinds around a bad name, and for faults found at compile time a second such fault in another change (both positions must be reported); delivered by -p (two path spellings), stdin and patch.Parse. Oracle: the injector knows the byte offset of the token it corrupted; a diagnostic must contain '<patch name>:<line>:<byte column>', exit != 0, at least one diagnostic names the patch, no target file changes. " +
 			"non-trivial = >=1 line precedes the faulty section; distinct = (fault kind, change index, preceding-lines shape, delivery).",
 		Assumptions: []string{"columns are byte columns as go/token counts them; for 'missing type' the offending token is the end of the line (the inserted ';')"},
 		Cases: func(tier string) int {
@@ -222,7 +253,7 @@ func runC19(ctx *core.Ctx, idx int) *core.Result {
 	res := &core.Result{}
 	r := ctx.Rand("c19", idx)
 	kind := c19FaultKinds[idx%len(c19FaultKinds)]
-	text, line, cols, at, shape := c19Patch(r, kind)
+	text, line, cols, at, shape, also := c19Patch(r, kind)
 	target := "package p\n\nfunc f() { foo0(1); foo1(1); foo2(1); foo3(1); foo4(1) }\n"
 	wantPos := func(name string) []string {
 		var out []string
@@ -255,6 +286,13 @@ func runC19(ctx *core.Ctx, idx int) *core.Result {
 		if !ok {
 			res.Violate("C19/wrong-position/"+kind, fmt.Sprintf("[%s, %s] expected %v in: %s", delivery, shape, wantPos(name), core.Trunc(diag, 400)), rep)
 			return
+		}
+		for _, a := range also {
+			if !strings.Contains(diag, name+":"+a+":") && !strings.Contains(diag, name+":"+a+" ") {
+				res.Violate("C19/wrong-position/second-fault-of-the-patch", fmt.Sprintf("[%s, %s] expected also %s:%s in: %s", delivery, shape, name, a, core.Trunc(diag, 400)), rep)
+				return
+			}
+			res.Ob("second-faults-located", 1)
 		}
 		if line > 1 {
 			res.Sig(kind, at, shape, delivery)
